@@ -99,11 +99,16 @@ class Carried(Init):
     entry: Any = None
 
 
+_MUTATING = {"append", "extend", "add", "update", "insert", "setdefault", "pop", "remove", "clear", "discard", "sort"}
+
+
 class GenList(list):
     """result of a comprehension over a SYMBOLIC iterable: the items are the generic element(s); the length is unknown, so slicing, indexing with a
     position, len() and (if nothing filters) truthiness are symbolic, never read off the Python list"""
     sources: tuple = ()
     filtered: bool = False
+    origin: Any = None          # the list object that was filled by a loop (identity of recorded append effects)
+    ifs: tuple = ()             # filter conditions (syntax) of the comprehension
 
 
 def path_of(v) -> str:
@@ -162,6 +167,43 @@ def parts(v, depth: int = 0):
         yield from parts(v.right, depth + 1)
     elif isinstance(v, BoolSym):
         yield from parts(v.operands, depth + 1)
+
+
+def subst(v, old: Sym, new: Sym, depth: int = 0):
+    """the term v with the symbol `old` (identified by its path) replaced by `new`; paths are compositional, so they are rewritten textually"""
+    import dataclasses
+    if depth > 12:
+        return v
+    if isinstance(v, Sym):
+        if v.path == old.path:
+            return new
+        if old.path not in v.path:
+            return v
+        ch = {}
+        for f in dataclasses.fields(v):
+            if f.name in ("path", "cls"):
+                continue
+            ch[f.name] = subst(getattr(v, f.name), old, new, depth + 1)
+        return dataclasses.replace(v, path=v.path.replace(old.path, new.path), **ch)
+    if isinstance(v, tuple):
+        return tuple(subst(x, old, new, depth + 1) for x in v)
+    if isinstance(v, list):
+        return [subst(x, old, new, depth + 1) for x in v]
+    if isinstance(v, dict):
+        return {k: subst(x, old, new, depth + 1) for k, x in v.items()}
+    return v
+
+
+def _member_of(k):
+    """path of the iterable S if the symbol k is the generic element of S (or of a slice of S), directly or as the item of enumerate(S)"""
+    if isinstance(k, SubSym) and k.key == 1 and isinstance(k.base, ElemSym) and isinstance(k.base.source, CallSym) and k.base.source.meth == "enumerate" \
+            and k.base.source.recv is None and k.base.source.args:
+        src = k.base.source.args[0]
+    elif isinstance(k, ElemSym):
+        src = k.source
+    else:
+        return None
+    return path_of(src.base) if isinstance(src, SliceSym) else path_of(src)
 
 
 def called(v) -> set[str]:
@@ -251,11 +293,35 @@ class LDT(DT):
         for nme in sorted((stored & loaded) - {t.id for t in ast.walk(s.target) if isinstance(t, ast.Name)}):
             if nme in env and not isinstance(env[nme], Init):
                 env[nme] = Carried(nme, None, env[nme])
+        # containers filled by the loop: what they hold when an ARBITRARY iteration starts is unknown.  If the body also reads such a container
+        # (not only adds to it) it enters as an unknown symbol; if the body only adds to it, it keeps collecting the generic element and becomes
+        # a generic list (unknown length) after the loop
+        mutated_here, read_here = set(), set()
+        for st in s.body:
+            for t in ast.walk(st):
+                if isinstance(t, ast.Name) and isinstance(t.ctx, ast.Load):
+                    p = getattr(t, "_parent", None)
+                    pp = getattr(p, "_parent", None)
+                    if isinstance(p, ast.Attribute) and p.value is t and p.attr in _MUTATING and isinstance(pp, ast.Call) and pp.func is p:
+                        mutated_here.add(t.id)
+                    elif isinstance(p, ast.Subscript) and p.value is t and isinstance(p.ctx, (ast.Store, ast.Del)):
+                        mutated_here.add(t.id)
+                    else:
+                        read_here.add(t.id)
+        for nme in sorted(mutated_here & read_here):
+            if nme in env and isinstance(env[nme], (list, dict)) and not isinstance(env[nme], GenList):
+                env[nme] = Carried(nme, None, env[nme])
+        filled = {nme: env[nme] for nme in mutated_here - read_here if isinstance(env.get(nme), list) and not isinstance(env.get(nme), GenList) and not env[nme]}
         self.assign(s.target, elem, env)
         try:
             self.block(s.body, env)
         except (_Continue, _Break):
             pass
+        for nme, before in filled.items():
+            if env.get(nme) is before:
+                g = GenList(before)
+                g.sources, g.filtered, g.origin = (it,), False, before
+                env[nme] = g
 
     # ---- structured values
     def ev_Name(self, n, env):
@@ -306,11 +372,24 @@ class LDT(DT):
             return SubSym(f"{path_of(base)}[{path_of(k)}]", None, base, k)
         if isinstance(base, dict) and not isinstance(n.slice, ast.Slice):
             k = self.concrete(self.ev(n.slice, env))
+            if isinstance(k, SubSym) and k.path not in base and len(base) == 1 and _member_of(k) is not None:
+                kk = next(iter(base))
+                if isinstance(kk, str) and kk.startswith("∀") and "∈" in kk and kk.split("∈", 1)[1] == _member_of(k):
+                    olds = [x for x in parts(base[kk]) if isinstance(x, ElemSym) and x.path == kk]
+                    if olds:
+                        return subst(base[kk], olds[0], k)
             if isinstance(k, ElemSym) and k.path not in base:
                 # the generic element of the same iterable under another loop variable
                 same = [kk for kk in base if isinstance(kk, str) and kk.startswith("∀") and "∈" in kk and kk.split("∈", 1)[1] == k.path.split("∈", 1)[1]]
                 if len(same) == 1:
                     return base[same[0]]
+                # {x: f(x) for x in S}[y] with y an element of a slice of S: f(y)
+                if len(base) == 1 and isinstance(k.source, SliceSym):
+                    kk = next(iter(base))
+                    if isinstance(kk, str) and kk.startswith("∀") and "∈" in kk and kk.split("∈", 1)[1] == path_of(k.source.base):
+                        olds = [x for x in parts(base[kk]) if isinstance(x, ElemSym) and x.path == kk]
+                        if olds:
+                            return subst(base[kk], olds[0], k)
             self._pre[id(n.slice)] = k
         self._pre[id(n.value)] = base
         try:
@@ -430,8 +509,24 @@ class LDT(DT):
         if kind != "dict" and generic:
             res = GenList(out_l)
             res.sources, res.filtered = tuple(generic), any(flt)
+            res.ifs = tuple(c for g in n.generators for c in g.ifs)
             return res
         return out_d if kind == "dict" else out_l
+
+    def ev_List(self, n, env):
+        if not any(isinstance(e, ast.Starred) for e in n.elts):
+            return super().ev_List(n, env)
+        out = []
+        for e in n.elts:
+            if isinstance(e, ast.Starred):
+                v = self.concrete(self.ev(e.value, env))
+                if isinstance(v, (list, tuple)):
+                    out.extend(v)                   # a generic run keeps its generic element(s)
+                else:
+                    out.append(Sym("?*" + unparse(e.value)[:60]))
+            else:
+                out.append(self.ev(e, env))
+        return out
 
     def ev_ListComp(self, n, env):
         return self._comp(n, env, "list")
@@ -614,6 +709,9 @@ def declare(ctx: Ctx) -> None:
                "literal sequences are unrolled; while-loops and other unsupported statements assign fresh unknown symbols to their targets")
     ctx.assume("a comprehension over a symbolic iterable yields a generic list (its items are the generic element, its length is unknown): slices, positions, len() and - "
                "if nothing filters - emptiness of it are symbolic terms / enumerated atoms, never read off a concrete list")
+    ctx.assume("a container that a symbolic loop both fills and reads enters the generic iteration as an unknown symbol (its contents after 'some' earlier iterations); a list "
+               "that is empty before the loop and only filled by it is a generic list (unknown length) afterwards; {x: f(x) for x in S}[y] with y an element of S or of a "
+               "slice of S is the term f(y)")
     ctx.assume("an expression the evaluator does not model (unknown call, attribute of an unknown object) becomes an opaque symbol named by its source text; a rule that "
                "meets an opaque symbol where it needs structure reports an analysis gap, never a verdict")
     ctx.assume("conditions are treated as independent atoms (all combinations enumerated, also infeasible ones): a violation is reported for a path whose condition set "
@@ -776,7 +874,8 @@ def r05_1(ctx: Ctx) -> None:
                 if hv is not None and not hcalls:
                     # heading info is attached on this path, but it is not a _get_group_headers result computed in this
                     # iteration: a value carried over from an earlier page describes that page's first row, not this one's
-                    if isinstance(hv, Carried) or any(isinstance(x, Carried) for x in parts(hv)):
+                    root = hv.path.split("[")[0].split(".")[0] if isinstance(hv, Sym) else ""
+                    if isinstance(hv, Carried) or any(isinstance(x, Carried) for x in parts(hv)) or isinstance(env.get(root), Carried):
                         seen_h += 1
                         ctx.violation("R05.1", short, "heading info carried over from an earlier page", fi.where(),
                                       f"{short}: on a path that appends a page, pageby_header_info is `{path_of(hv)[:80]}`, a value kept from an earlier "
